@@ -175,6 +175,13 @@ def _run_bad(ctx, b, q):
         # all orders of the 3-block trees, every 2nd order of T5, every 4th of T6 (8 pid combinations each)
         pool = [x for i, x in enumerate(allb) if x['steps'][0]['n'] == 3
                 or (x['steps'][0]['n'] == 4 and x['steps'][0]['kind'][1] == 'ok' and i % 2 == 0) or i % 4 == 0]
+    # the orders of T7 in which the invalid download block is deleted from the index while its child stays
+    # indexed (dangling node: nil fork point, fixed in d50210a) are always replayed
+    def _dangling(x):
+        dl = [st for st in x['steps'] if st.get('op') == 'Deliver']
+        return x['steps'][0]['n'] == 5 and len(dl) > 1 and dl[0]['b'] == 1 and dl[0]['pid'] == 'download' and dl[1]['b'] == 2
+    ids = {x['id'] for x in pool}
+    pool += [x for x in allb if _dangling(x) and x['id'] not in ids]
     ctx.extra['replayed_delivery_orders'] = len(pool)
     for k in range(len(kinds)):
         sel = pool[k::len(kinds)]
